@@ -222,6 +222,9 @@ pub enum ReadMode {
     Const(usize),
     /// like Const, but the caller reads on after an error (up to four errors)
     ConstRetry(usize),
+    /// like Const, with a read into an empty buffer after the first and the third non-empty read (it
+    /// hands out nothing and changes nothing)
+    ConstWithEmpty(usize),
     Bytes,
     /// `json()` / `json_utf8()`: only used with the JSON payload; yields the payload bytes again when
     /// the parsed value equals the payload's value
@@ -493,11 +496,20 @@ fn run(c: &Case, s: &Stream) -> (Obs, Vec<u8>, bool) {
                     Err(e) => Obs::Err(vec![], e.to_string()),
                 }
             }
-            ReadMode::Const(k) | ReadMode::ConstRetry(k) => {
+            ReadMode::Const(k) | ReadMode::ConstRetry(k) | ReadMode::ConstWithEmpty(k) => {
                 let mut out = Vec::new();
                 let mut buf = vec![0u8; k];
                 let mut errors = 0;
+                let mut calls = 0;
                 loop {
+                    calls += 1;
+                    if matches!(read, ReadMode::ConstWithEmpty(_)) && (calls == 2 || calls == 4) {
+                        match resp.read(&mut []) {
+                            Ok(0) => {}
+                            Ok(n) => return Obs::Err(out, format!("a read into an empty buffer returned {n}")),
+                            Err(e) => return Obs::Err(out, format!("a read into an empty buffer failed: {e}")),
+                        }
+                    }
                     match resp.read(&mut buf) {
                         Ok(0) => return Obs::Done(out),
                         Ok(n) => out.extend_from_slice(&buf[..n]),
@@ -764,6 +776,18 @@ fn cases_for(s: &Stream, tier: Tier) -> Vec<Case> {
                 c.passthrough = Some("identity".into());
                 v.push(c);
             }
+        }
+    }
+    // reads into an empty buffer in between
+    for framing in [Framing::Length, Framing::Chunked, Framing::Close] {
+        for r in [ReadMode::ConstWithEmpty(1), ReadMode::ConstWithEmpty(7), ReadMode::ConstWithEmpty(8192)] {
+            v.push(mk(framing, 0, Policy::default(), r, Damage::None));
+            v.push(mk(framing, 0, Policy { cuts: vec![], uniform: Some(7) }, r, Damage::None));
+        }
+        if s.name.contains(".l6.") || s.name.contains(".l0.") {
+            let mut c = mk(framing, 0, Policy::default(), ReadMode::ConstWithEmpty(7), Damage::None);
+            c.passthrough = Some("identity".into());
+            v.push(c);
         }
     }
     // what the resource is called plays no part either
